@@ -379,9 +379,46 @@ def _check_codes(prog: Program, res: Result):
         if not okv:
             res.violation("R04.3", f"contour-rebound|{norm_stmt(s_)[:60]}", prog.loc(fi, s_), q,
                           f"'{norm_stmt(s_)[:80]}' replaces the polygon under test by something that is not the same set of vertices: points near the dropped vertices are classified against a different polygon")
+    # inside / outside is decided only after every edge was examined: within the edge loops only the on-edge code 0 may be returned
+    for lp in [n for n in ast.walk(fi.node) if isinstance(n, (ast.For, ast.While))]:
+        for r in ast.walk(lp):
+            if isinstance(r, ast.Return) and r.value is not None and not any(r is x for f2 in nested for x in ast.walk(f2)):
+                try:
+                    code = ast.literal_eval(r.value)
+                except Exception:  # noqa: BLE001
+                    code = None
+                if code != 0:
+                    res.ob("R04.3", "inside / outside is returned only after all edges were examined", False, prog.loc(fi, r))
+                    res.violation("R04.3", f"early-exit|{ast.unparse(r.value)[:20]}", prog.loc(fi, r), q,
+                                  f"'{norm_stmt(r)}' inside the edge loop decides inside / outside before all edges were counted: a ray that crosses the outline more than twice (U- or comb-shaped polygon) is misclassified")
     # parity
     if final is None:
         raise AnalysisError(f"{q}: final parity return not found")
+    ft = final.value.test
+    if isinstance(ft, ast.Name) and any(isinstance(s_, ast.AugAssign) and isinstance(s_.target, ast.Name) and s_.target.id == ft.id for s_ in ast.walk(fi.node)):
+        # a crossing COUNTER tested for truth: "inside iff any crossing" instead of "iff an odd number"
+        res.ob("R04.3", "the final code depends on the PARITY of the crossings", False, prog.loc(fi, final))
+        res.violation("R04.3", f"parity|counter-truth|{ast.unparse(final.value)[:40]}", prog.loc(fi, final), q,
+                      f"'{norm_stmt(final)}' reports inside whenever the crossing count is non-zero; it must depend on the count being odd")
+        return
+    if isinstance(ft, ast.BinOp) and isinstance(ft.op, ast.Mod) and isinstance(ft.left, ast.Name) and isinstance(ft.right, ast.Constant) and ft.right.value == 2 \
+            or (isinstance(ft, ast.Compare) and len(ft.ops) == 1 and isinstance(ft.left, ast.BinOp) and isinstance(ft.left.op, ast.Mod) and isinstance(ft.left.left, ast.Name)
+                and isinstance(ft.left.right, ast.Constant) and ft.left.right.value == 2 and isinstance(ft.comparators[0], ast.Constant)):
+        # counter form:  C = 0 ; C += 1 per crossing ; return A if C % 2 [== 1] else B
+        cnt = ft.left.id if isinstance(ft, ast.BinOp) else ft.left.left.id
+        odd_true = True if isinstance(ft, ast.BinOp) else ((isinstance(ft.ops[0], ast.Eq) and ft.comparators[0].value == 1) or (isinstance(ft.ops[0], ast.NotEq) and ft.comparators[0].value == 0))
+        incs = [s_ for s_ in ast.walk(fi.node) if isinstance(s_, ast.AugAssign) and isinstance(s_.target, ast.Name) and s_.target.id == cnt and isinstance(s_.op, ast.Add)
+                and isinstance(s_.value, ast.Constant) and s_.value.value == 1]
+        init0 = any(isinstance(s_, ast.Assign) and len(s_.targets) == 1 and isinstance(s_.targets[0], ast.Name) and s_.targets[0].id == cnt and isinstance(s_.value, ast.Constant) and s_.value.value == 0 for s_ in ast.walk(fi.node))
+        if len(incs) != 1 or not init0:
+            raise AnalysisError(f"{q}: crossing counter not understood")
+        a, b = ast.literal_eval(final.value.body), ast.literal_eval(final.value.orelse)
+        odd, even = (a, b) if odd_true else (b, a)
+        ok = even == -1 and odd == 1
+        res.ob("R04.3", f"even number of crossings -> -1 (outside), odd -> 1 (inside) (got even={even}, odd={odd})", ok, prog.loc(fi, final))
+        if not ok:
+            res.violation("R04.3", f"parity|even={even}|odd={odd}", prog.loc(fi, final), q, f"an even number of crossings returns {even} and an odd number {odd}; expected -1 (outside) and 1 (inside)")
+        return
     var = final.value.test.id if isinstance(final.value.test, ast.Name) else None
     init = None
     toggles = 0
@@ -405,10 +442,30 @@ def _check_codes(prog: Program, res: Result):
 def _check_order(prog: Program, res: Result):
     q = f"{DOM}.polygonal_land_constraint"
     fi = prog.func(q)
-    ret = [r for r in ast.walk(fi.node) if isinstance(r, ast.Return)]
+    ret = [r for r in fi.node.body if isinstance(r, ast.Return)]
     names = [e.id for e in ret[-1].value.elts if isinstance(e, ast.Name)] if ret and isinstance(ret[-1].value, ast.Tuple) else []
     if len(names) != 2:
         raise AnalysisError(f"{q}: return value is not (domains, descriptors)")
+    # every other way out of the function hands back fields that did not pass through THIS call's cut-outs: acceptable only
+    # for a memo whose key names every parameter (property outline, no-go zones, spacings, contour flags)
+    params_ = [p_ for p_ in fi.params()]
+    for r in ast.walk(fi.node):
+        if isinstance(r, ast.Return) and r not in ret and r.value is not None:
+            okm = False
+            missing = params_
+            v = r.value
+            if isinstance(v, ast.Subscript) and isinstance(v.value, ast.Name):
+                k = v.slice
+                if isinstance(k, ast.Name):
+                    k = next((s_.value for s_ in ast.walk(fi.node) if isinstance(s_, ast.Assign) and len(s_.targets) == 1 and isinstance(s_.targets[0], ast.Name) and s_.targets[0].id == k.id), k)
+                used = {x.id for x in ast.walk(k) if isinstance(x, ast.Name)}
+                missing = [p_ for p_ in params_ if p_ not in used]
+                okm = not missing
+            res.ob("R04.1", f"'{norm_stmt(r)[:60]}' returns stored fields only under a key that names every parameter", okm, prog.loc(fi, r))
+            if not okm:
+                res.violation("R04.1", f"bypass|{norm_stmt(r)[:60]}|{missing}", prog.loc(fi, r), q,
+                              f"'{norm_stmt(r)[:80]}' leaves polygonal_land_constraint without cutting the grid against this call's outlines; the stored result it returns does not depend on {missing}: "
+                              "boreholes computed for another property / no-go layout are handed back")
     dom_list = names[0]
     # what is appended to the returned list must come from reorder_domain
     apps = [n for n in ast.walk(fi.node) if isinstance(n, ast.Call) and isinstance(n.func, ast.Attribute) and n.func.attr == "append" and attr_chain(n.func.value) == dom_list]
@@ -452,6 +509,14 @@ def _check_order(prog: Program, res: Result):
 
 
 VARIANTS = [
+    Variant("ray casting stops after the second crossing (seeded C04_c)", "break",
+            [(SHM, "    inside = True\n", "    crossings = 0\n"),
+             (SHM, "                inside = not inside\n", "                crossings += 1\n                if crossings == 2:\n                    return -1\n"),
+             (SHM, "    return -1 if inside else 1", "    return 1 if crossings else -1")], "R04.3"),
+    Variant("crossings counted instead of toggled, parity taken at the end", "benign",
+            [(SHM, "    inside = True\n", "    crossings = 0\n"),
+             (SHM, "                inside = not inside\n", "                crossings += 1\n"),
+             (SHM, "    return -1 if inside else 1", "    return 1 if crossings % 2 == 1 else -1")]),
     Variant("closed rings lose their first vertex as well as the repeated last one (seeded C04_b)", "break",
             [(SHM, "    def distance(pt_1, pt_2) -> float:", "    if len(contour) > 3 and list(contour[0]) == list(contour[-1]):\n        contour = contour[1:-1]\n\n    def distance(pt_1, pt_2) -> float:")], "R04.3"),
     Variant("closed rings lose the repeated closing vertex only", "benign",
